@@ -154,7 +154,7 @@ Section filt.
     stack s = gf w flt_hit a t0 r (fstate i0 o0 dp0) :: anc -> fc s = fstate i o dp -> enabled s = true ->
     ridx s = r + 1 -> t0 <= t1 -> t1 < 18446744073709551616 -> 0 < t1 ->
     do_leave c s t1 =
-    if (thr <? t1 - t0) || w then
+    if (thr <=? t1 - t0) || w then
       {| fc := fstate (if flt_hit then i - 1 else i)%Z o dp0; enabled := true; cached := cached s;
          stack := if w then anc else fst (flush_anc anc); ridx := r;
          out := out s ++ (if w then [] else snd (flush_anc anc) ++ [E_ a t0 r]) ++ [X_ a t1 r];
@@ -200,7 +200,7 @@ Section filt.
                       depth := dp0; max_depth := FILTER_NO_MAX_DEPTH; ftime := NO_TIME; fsize := 0 |}
                    = fstate (if flt_hit then (i - 1)%Z else i) o dp0) by (destruct flt_hit; reflexivity).
     rewrite Hfc'.
-    destruct ((thr <? t1 - t0) || w) eqn:Dec; [|reflexivity].
+    destruct ((thr <=? t1 - t0) || w) eqn:Dec; [|reflexivity].
     unfold record_trace_data. rewrite Hfl, Hw.
     assert (Hend : (f_end (set_end fr t1) =? 0) = false) by (cbn [set_end f_end]; lia).
     destruct w.
@@ -383,7 +383,7 @@ Section filt.
         rewrite (leave_rec s2 (negb (is_nil Rk)) true a t0 (ridx s) i 0 dp t1 _ (i + 1)%Z 0%Z 1 S2' F2 En2)
           by (try assumption; lia).
         cbv zeta. fold Rk.
-        destruct ((thr <? t1 - t0) || negb (is_nil Rk)) eqn:Dec.
+        destruct ((thr <=? t1 - t0) || negb (is_nil Rk)) eqn:Dec.
         { eexists. split; [reflexivity|].
           unfold afterg. cbn [fc enabled cached ridx stack out is_nil].
           replace (i + 1 - 1)%Z with i by lia. rewrite Hfc.
@@ -443,7 +443,7 @@ Section filt.
           rewrite (leave_rec s2 (negb (is_nil Rk)) false a t0 (ridx s) i 0 dp t1 _ i 0%Z (dp + 1) S2' F2 En2)
             by (try assumption; lia).
           cbv zeta. fold Rk.
-          destruct ((thr <? t1 - t0) || negb (is_nil Rk)) eqn:Dec.
+          destruct ((thr <=? t1 - t0) || negb (is_nil Rk)) eqn:Dec.
           { eexists. split; [reflexivity|].
             unfold afterg. cbn [fc enabled cached ridx stack out is_nil]. rewrite Hfc.
             repeat split; try assumption; try congruence.
